@@ -68,14 +68,14 @@ Proof.
   pose proof (R_effect lvl c s e s' W (i_pend c s I) Hs) as HR.
   split.
   - (* pend_ok *)
-    intros n y Hy. destruct (HR n) as [Hq _|_ B1 B2 B3 B4 _ _ _ _ _ _|_ A1 A2 A3 _ A4 _ _ _].
+    intros n y Hy. destruct (HR n) as [Hq _|_ B1 B2 B3 B4 _ _ _ _ _ _|_ A1 A2 A3 _ A4 _ _ _ _].
     + destruct Hq as (_ & Hq & _). rewrite Hq in Hy. apply (i_pend c s I). exact Hy.
     + apply B4. exact Hy.
     + destruct (A4 y Hy) as [H|H]; [apply (i_pend c s I); exact H|exact H].
   - (* idle *)
     intros n x Hm Hph.
     assert (Hph0 : ph (Rn s n) = PIdle).
-    { destruct (HR n) as [Hq _|_ B1 B2 B3 B4 _ _ _ _ _ _|_ A1 A2 A3 _ A4 _ _ _].
+    { destruct (HR n) as [Hq _|_ B1 B2 B3 B4 _ _ _ _ _ _|_ A1 A2 A3 _ A4 _ _ _ _].
       - destruct Hq as (Hq & _). rewrite <- Hq. exact Hph.
       - destruct B3 as [B3|B3]; rewrite B3 in Hph; discriminate.
       - contradiction. }
@@ -106,7 +106,7 @@ Proof.
       - rewrite H2 in Hst. cbn in Hst. destruct Hst; discriminate.
       - rewrite H3 in Hst. cbn in Hst. destruct Hst; discriminate. }
     pose proof (i_l1 c s I n Hn0 Hst0) as Hph0.
-    destruct (HR n) as [Hq _|_ B1 B2 B3 B4 _ _ _ _ _ _|_ A1 A2 A3 _ A4 _ _ _].
+    destruct (HR n) as [Hq _|_ B1 B2 B3 B4 _ _ _ _ _ _|_ A1 A2 A3 _ A4 _ _ _ _].
     + destruct Hq as (Hq & _). rewrite Hq. exact Hph0.
     + exfalso. apply rootb_false in Hn0. specialize (B2 Hn0).
       destruct B2 as [[B2 _]|[B2 _]]; destruct Hst as [Hst|Hst]; rewrite Hst in B2; discriminate.
@@ -208,7 +208,7 @@ Lemma lk_step lvl c s e s' n : wf c = true -> Inv1 c s -> step lvl c s e = Some 
 Proof.
   intros W I1 Hs Hn Hsch L.
   pose proof (R_effect lvl c s e s' W (i_pend c s I1) Hs n) as HR.
-  destruct HR as [Hq Hqa|Hact B1 B2 B3 B4 _ _ _ _ _ _|Hact A1 A2 A3 Apost A4 A5 A6 A7].
+  destruct HR as [Hq Hqa|Hact B1 B2 B3 B4 _ _ _ _ _ _|Hact A1 A2 A3 Apost A4 A5 A6 A7 A8].
   2:{ apply lk_of_post. apply B2. apply rootb_false. exact Hn. }
   2:{ apply lk_of_post. apply Apost. exact Hn. }
   destruct Hq as (Hph & _).
